@@ -133,11 +133,14 @@ def _index_sites(repo, out):
                           "%s: %s sets an index to something else than <fh>.to_absolute(self.cutoff)"
                           % (rel, qn), n)
                     site = True
-                elif (rel.endswith("_statsmodels.py") and qn.endswith("._predict") and isinstance(n, ast.Return)):
-                    v = n.value
-                    _need(isinstance(v, ast.Subscript) and _u(v.value) == "y_pred.loc"
+                elif (rel.endswith("_statsmodels.py") and qn == "_StatsModelsAdapter._predict"
+                      and isinstance(n, ast.Return)):
+                    # <dense forecast of the wrapped model>.loc[<fh>.to_absolute(self.cutoff).to_pandas()]
+                    v = _resolved(fn, n.value)
+                    _need(isinstance(v, ast.Subscript) and isinstance(v.value, ast.Attribute) and v.value.attr == "loc"
                           and _is_abs_index(fn, v.slice, to_pandas=True),
-                          "%s: %s must select y_pred.loc[fh.to_absolute(self.cutoff).to_pandas()]" % (rel, qn), n)
+                          "%s: %s must select <dense forecast>.loc[fh.to_absolute(self.cutoff).to_pandas()]"
+                          % (rel, qn), n)
                     site = True
                 if site:
                     k += 1
@@ -153,19 +156,40 @@ def _index_sites(repo, out):
                    % (name, rel, qn))
     out.append("Definition gen_index_sites : list (Z -> Z -> Z) :=\n  [%s].\n"
                % "; ".join("gen_index_" + n for n in names))
-    # the adapter asks the wrapped model for zero-based positions start..end from the same horizon
+    # the adapter asks the wrapped model for the zero-based positions first..last of the same horizon:
+    # the returned value is self._fitted_forecaster.predict(P[[0, -1]][0], P[[0, -1]][1]).loc[...] with
+    # P = fh.to_absolute_int(self._y.index[0], self.cutoff)  (canonical tree: names do not matter)
+    from . import canon_c11 as C
+    from .naive_c11 import _decider, bound_args, select
     with open(os.path.join(repo, "sktime/forecasting/base/adapters/_statsmodels.py")) as f:
-        fn = find(ast.parse(f.read()), "_StatsModelsAdapter._predict")
-    from .naive_c11 import bound_args
-    se = [n for n in ast.walk(fn) if isinstance(n, ast.Assign) and _u(n.targets[0]) == "(start, end)"]
-    _need(len(se) == 1, "adapter: start, end = ...")
-    v = _resolved(fn, se[0].value)
-    _need(isinstance(v, ast.Subscript) and _u(v.slice) == "[0, -1]" and isinstance(v.value, ast.Call)
-          and _u(v.value.func) == "fh.to_absolute_int",
-          "adapter: start, end = fh.to_absolute_int(self._y.index[0], self.cutoff)[[0, -1]]", v)
-    a_start, a_cut = bound_args(v.value, ["start", "cutoff"])
-    _need(_u(a_start) == "self._y.index[0]" and _u(a_cut) == "self.cutoff",
-          "adapter: zero-based positions from self._y.index[0] and self.cutoff", v)
+        amod = ast.parse(f.read())
+    acls = find(amod, "_StatsModelsAdapter")
+    fn = find(acls, "_predict")
+    scope = C.Scope(cls=acls, mod=amod, repo=repo)
+    effs, leaf = select(C.of(fn, scope), _decider({"return_pred_int": False}), "_StatsModelsAdapter._predict")
+    _need(not effs and leaf[0] == "RET" and isinstance(leaf[1], ast.Subscript)
+          and isinstance(leaf[1].value, ast.Attribute) and leaf[1].value.attr == "loc",
+          "adapter: return <dense>.loc[...]")
+    dense = leaf[1].value.value
+    _need(isinstance(dense, ast.Call) and _u(dense.func) == "self._fitted_forecaster.predict",
+          "adapter: the dense forecast is self._fitted_forecaster.predict(start, end)", dense)
+    p_start, p_end = bound_args(dense, ["start", "end"])
+
+    def endpoint(e, which):
+        """P[[0, -1]][which]  or  P[0] / P[-1]"""
+        if isinstance(e, ast.Subscript) and isinstance(e.value, ast.Subscript) and _u(e.value.slice) == "[0, -1]" \
+                and _u(e.slice) == str(which):
+            return e.value.value
+        if isinstance(e, ast.Subscript) and _u(e.slice) == ("0" if which == 0 else "-1"):
+            return e.value
+        raise Unsupported("adapter: start / end must be the first / last requested position: %s" % _u(e))
+    pos = [endpoint(p_start, 0), endpoint(p_end, 1)]
+    for v in pos:
+        _need(isinstance(v, ast.Call) and isinstance(v.func, ast.Attribute) and v.func.attr == "to_absolute_int"
+              and _u(v.func.value) in HORIZONS, "adapter: positions come from fh.to_absolute_int(...)", v)
+        a_start, a_cut = bound_args(v, ["start", "cutoff"])
+        _need(_u(a_start) == "self._y.index[0]" and _u(a_cut) == "self.cutoff",
+              "adapter: zero-based positions from self._y.index[0] and self.cutoff", v)
     out.append("Definition gen_adapter_position (start cutoff r : Z) : Z := gen_fh_abs_int start (gen_fh_abs cutoff r).\n")
 
 
